@@ -8,6 +8,7 @@ package main
 import (
 	"fmt"
 	"go/token"
+	"go/types"
 	"runtime"
 	"strings"
 
@@ -222,4 +223,47 @@ func (r *Run) freeChoice() bool {
 	r.forks = append(r.forks, WorkItem{prefix: np, model: r.model})
 	r.trace = append(r.trace, 0)
 	return false
+}
+
+// permuteMapOrder makes the iteration order of a ranged Go map a free decision of the path (inside the
+// functions named by cfg.MapOrder, while verif.FreeMapOrder(true) is in force): every permutation of the
+// first cfg.MaxMapPerm entries is explored.  The first path keeps the sorted order.
+func (r *Run) permuteMapOrder(fr *frame, instr *ssa.Range, li *listIter) {
+	if _, isMap := instr.X.Type().Underlying().(*types.Map); !isMap {
+		return
+	}
+	name := infoOf(fr.fn).name
+	hit := false
+	for _, w := range r.cfg.MapOrder {
+		if strings.Contains(name, w) {
+			hit = true
+		}
+	}
+	if !hit {
+		return
+	}
+	n := len(li.items)
+	lim := r.cfg.MaxMapPerm
+	if lim <= 0 {
+		lim = 4
+	}
+	if n > lim {
+		if !r.replaying() {
+			r.reached["map order: only the first entries permuted (bound max_map_perm)"]++
+		}
+		n = lim
+	}
+	perm := ""
+	for i := 0; i < n-1; i++ {
+		j := i
+		for j < n-1 && r.freeChoice() {
+			j++
+		}
+		li.items[i], li.items[j] = li.items[j], li.items[i]
+		perm += fmt.Sprint(j)
+	}
+	if !r.replaying() {
+		r.reached["map order decided"]++
+	}
+	r.tags = append(r.tags, fmt.Sprintf("maporder@%s:%s=%s", name, fr.pos(instr), perm))
 }
